@@ -11,7 +11,11 @@ from genlib import *
 LEAN_MODULES = ["MpirProofs.Props.C04_allocsafe4"]
 THEOREMS = ["Mpir.AllocSafe." + t for t in (
     "mpz_cdiv_q_2exp_alloc_safe", "mpz_fdiv_q_2exp_alloc_safe", "cfdiv_q_2exp_refines", "Spec.cfdiv_q_2exp_spec", "Spec.roundZ_spec",
-    "specQ_signmag", "roundTail_refines", "Wrote.fresh")]
+    "specQ_signmag", "roundTail_refines", "Wrote.fresh",
+    "mpz_addmul_ui_alloc_safe", "mpz_submul_ui_alloc_safe", "mpz_addmul_alloc_safe", "mpz_submul_alloc_safe",
+    "aorsmul_1_refines", "aorsmul_1_add_refines", "aorsmul_1_sub_ge_refines", "aorsmul_1_sub_lt_refines", "subGeFix_refines",
+    "aorsmul_1_zero_refines", "aorsmul_refines", "aorsmulCore_refines", "add_S_refines", "sub_S_refines", "mpn_mul_tmp_spec",
+    "Wrote.rd_src")]
 TRUSTED = ["hand-written size-aware models lean/Mpir/Model/AllocSafeMpz4.lean (mpz/aorsmul_i.c, aorsmul.c on the memory model of AllocSafe.lean; "
            "TMP_ALLOC_LIMBS (tsize) = a block of its own that no variable points to; mpn_mul = the schoolbook product written to "
            "[0, xn+yn) of its destination), tied by exact comparison of ALLOC(w), SIZ(w), value in every alias mode, and by source pins"]
